@@ -1154,6 +1154,8 @@ def m_bytes(eng, args, kwargs, node, frame):
                 eng.raise_exc("ValueError", node)
         r = VSeq(v.at, v.n, "bytes", v.arr, v.esort, v.off)
         r.origin = v.origin
+        if getattr(v, "parts", None):
+            r.parts = v.parts
         return r
     if isinstance(v, VInt):
         n = z3.If(v.t > 0, v.t, 0)
@@ -1172,7 +1174,10 @@ def m_bytearray(eng, args, kwargs, node, frame):
     r = m_bytes(eng, args, kwargs, node, frame)
     r = eng.deref(r)
     if isinstance(r, VSeq):
-        return eng.alloc(VSeq(r.at, r.n, "bytearray", r.arr, r.esort, r.off))
+        nr = VSeq(r.at, r.n, "bytearray", r.arr, r.esort, r.off)
+        if getattr(r, "parts", None):
+            nr.parts = r.parts          # a copy of a concatenation still agrees with the pieces (shift/extensionality lemmas)
+        return eng.alloc(nr)
     return r
 
 
